@@ -19,6 +19,7 @@ import (
 	"github.com/ipfs/go-graphsync/donotsendfirstblocks"
 	"github.com/ipfs/go-graphsync/ipldutil"
 	gsmsg "github.com/ipfs/go-graphsync/message"
+	"github.com/ipfs/go-graphsync/panics"
 	"github.com/ipfs/go-graphsync/requestmanager/hooks"
 	"github.com/ipfs/go-graphsync/requestmanager/types"
 )
@@ -80,7 +81,7 @@ func (e *Executor) ExecuteTask(ctx context.Context, pid peer.ID, task *peertask.
 	defer span.End()
 
 	log.Debugw("beginning request execution", "id", requestTask.Request.ID(), "peer", pid.String(), "root_cid", requestTask.Request.Root().String())
-	err := e.traverse(requestTask)
+	err := e.traverseSafely(requestTask)
 	if err != nil {
 		span.RecordError(err)
 		if !ipldutil.IsContextCancelErr(err) {
@@ -113,6 +114,20 @@ type RequestTask struct {
 	InProgressErr        chan error
 	Empty                bool
 	ReconciledLoader     ReconciledLoader
+	// PanicCallback is told about panics recovered while executing this task
+	PanicCallback panics.CallBackFn
+}
+
+// traverseSafely runs traverse and turns a panic raised on this goroutine by
+// user supplied code (storage functions, hooks) into an error of this request
+// only
+func (e *Executor) traverseSafely(rt RequestTask) (err error) {
+	defer func() {
+		if panicErr := panics.MakeHandler(rt.PanicCallback)(recover()); panicErr != nil {
+			err = panicErr
+		}
+	}()
+	return e.traverse(rt)
 }
 
 func (e *Executor) traverse(rt RequestTask) error {
